@@ -44,3 +44,37 @@ Print Assumptions c01_prodos_structure.
 Example c01_prodos_structure_nonvacuous : let cs := [0; 255; 256; 600; 1300] in let free := map N.of_nat (seq 7 40) in
   cs <> [] /\ cs_end cs <= 32768 /\ (length (events cs) <= length free)%nat /\ l_storage (pd_layout cs free) = 3 /\ l_blocks (pd_layout cs free) = 10.
 Proof. exact pd_example. Qed.
+
+(* ---------- the CP/M directory entries of one file (Fs/CpmExtents.v, tied to src/fs/cpm by the cpm-extents correspondence
+   stream) ---------- *)
+From A2 Require Import Fs.CpmExtents Fs.CpmExtentsProofs.
+
+(* for EVERY disk parameter block whose pointers per entry split evenly into 16K logical extents, every non-empty set of stored chunks
+   (holes anywhere: windows without data get no entry) and every block assignment that gives stored chunks a non-zero block: reading the
+   entries back in order finds every stored chunk, in ascending order, at its own index with its own block, and nothing else *)
+Theorem c01_cpm_read : forall p cs free eof, wf p -> (forall c, c_present cs c = true -> c_block_of cs free c <> 0) -> cs <> [] ->
+  cpm_read p (cpm_entries p cs free eof)
+  = Some (map (fun c => (c, c_block_of cs free c))
+              (filter (c_present cs) (flat_map (slots_of p) (map N.of_nat (seq 0 (N.to_nat ((c_end cs + c_spx p - 1) / c_spx p))))))).
+Proof. exact cpm_read_correct. Qed.
+Print Assumptions c01_cpm_read.
+
+Theorem c01_cpm_members : forall p cs free eof, wf p -> (forall c, c_present cs c = true -> c_block_of cs free c <> 0) -> cs <> [] ->
+  exists l, cpm_read p (cpm_entries p cs free eof) = Some l /\
+  forall c b, In (c, b) l <-> (c_present cs c = true /\ b = c_block_of cs free c).
+Proof. exact cpm_read_members. Qed.
+Print Assumptions c01_cpm_members.
+
+(* and the length read back from the last entry (extent number, record count, byte count) is the length that was written: rounded up
+   to a 128-byte record on CP/M 2, exact on CP/M 3, for every length that ends in the last stored block *)
+Theorem c01_cpm_eof : forall p cs free eof, wf p -> cs <> [] -> (c_end cs - 1) * c_bs p < eof -> eof <= c_end cs * c_bs p ->
+  cpm_eof (cpm_entries p cs free eof) = if c_v3 p then eof else (eof + 127) / 128 * 128.
+Proof. exact cpm_eof_correct. Qed.
+Print Assumptions c01_cpm_eof.
+
+Example c01_cpm_nonvacuous :
+  let p := {| c_exm := 1; c_bs := 2048; c_spx := 16; c_v3 := false |} in
+  wf p /\ cpm_eof (cpm_entries p [0; 1; 17] [5; 6; 7] 35000) = 35072
+  /\ cpm_read p (cpm_entries p [0; 1; 17] [5; 6; 7] 35000) = Some [(0, 5); (1, 6); (17, 7)]
+  /\ length (cpm_entries p [0; 1; 17] [5; 6; 7] 35000) = 2%nat.
+Proof. exact cpm_example. Qed.
